@@ -19,6 +19,8 @@ for d in sorted(glob.glob(os.path.join(VERIF, "seeded", "C*_*"))):
                 caught = f"{c}: VIOLATION" + (" (no-failing-input-found)" if "no-failing-input-found" in vio[0] else "")
                 fi = [l.strip() for l in lines if l.strip().startswith(("failing input", "broken obligation"))]
                 how = (fi[0] if fi else "")[:260]
+            elif "VIOLATION" in caught:
+                continue  # another check already reported it
             elif v["exit"] == 0:
                 caught = f"{c}: MISSED"
             else:
